@@ -378,11 +378,12 @@ Section PattWf.
 End PattWf.
 
 (* ------------------------------------------------------------------ the descriptor family
-   The reader's range is larger than wf_dval in exactly one respect: a key that the input ends inside.
-   read_length_and_key takes `fp.read(length or 4)` as it comes: at the end of the block the key is short or empty,
-   and when its length field was 0 the short key is ADDED TO _TERMS.  The writer then emits it with length 0, and the
-   re-read takes four bytes for it (the key plus padding / following bytes).  Guard: every key of the value is
-   non-empty ([dkeys]) and every term is 4 bytes long (wf_terms of the term set after the read): finding F-C02-7. *)
+   Until /repo 708c13e the reader's range was larger than wf_dval in one respect (finding F-C02-7, fixed): a key that the
+   input ended inside was taken as it came - short or empty - and, when its length field was 0, ADDED TO _TERMS; the
+   writer then emitted it with length 0 and the re-read took four bytes for it.  [dkeys] (every key non-empty) and
+   wf_terms of the grown term set describe what was missing; since the fix both hold for everything the reader
+   produces ([read_dval_keys]): the only hypothesis left is that the term table the library starts with is well
+   formed (every term 4 bytes: true of psd_tools.terminology, checked by the C01 harness). *)
 Fixpoint dkeys (d : dval) : bool :=
   let ok_items (items : list (key * dval)) :=
     forallb (fun kv : key * dval => let (k, v) := kv in nonempty_key k && dkeys v) items in
@@ -436,6 +437,144 @@ Proof.
     apply IH; [now apply nodupk_odk_insert|now apply Forall_odk_insert]. }
   apply G; [reflexivity|constructor].
 Qed.
+
+(* since 708c13e: a key that was read is complete - never empty, and a key added to the terms is 4 bytes long *)
+Lemma read_key_props t s k t' s' : read_key t s = Ok (k, t', s') ->
+  nonempty_key k = true /\ (wf_terms t = true -> wf_terms t' = true).
+Proof.
+  unfold read_key. intros H. dres H as n s1 E1.
+  destruct (negb (len (fst (read_upto (if n =? 0 then 4 else n) s1)) =? (if n =? 0 then 4 else n))) eqn:El; [discriminate|].
+  apply negb_false_iff in El. apply Z.eqb_eq in El. inversion H; subst. clear H.
+  set (k := fst (read_upto (if n =? 0 then 4 else n) s1)) in *.
+  split.
+  - unfold nonempty_key. destruct (n =? 0) eqn:En.
+    + rewrite El. reflexivity.
+    + pose proof (len_nonneg k). destruct (len k =? 0) eqn:E0; [|reflexivity]. lia.
+  - intros Ht. destruct ((n =? 0) && negb (key_in k t)) eqn:Ea; [|exact Ht].
+    apply andb_prop in Ea as [En _]. rewrite En in El. unfold wf_terms in *. cbn [forallb]. rewrite Ht, andb_true_r.
+    unfold len in El. apply Nat.eqb_eq. lia.
+Qed.
+Lemma Forall_odk_insert2 (Pk : key -> Prop) (Pv : dval -> Prop) k v d :
+  Pk k -> Pv v -> Forall (fun kv => Pk (fst kv) /\ Pv (snd kv)) d ->
+  Forall (fun kv : key * dval => Pk (fst kv) /\ Pv (snd kv)) (odk_insert k v d).
+Proof.
+  intros Hk Hv. induction 1 as [|[k' v'] t [Hy1 Hy2] Ht IH]; cbn [odk_insert]; [repeat constructor; assumption|].
+  destruct (list_eqb k k'); constructor; auto.
+Qed.
+Lemma odk_build_Forall2 (Pk : key -> Prop) (Pv : dval -> Prop) l :
+  Forall (fun kv => Pk (fst kv) /\ Pv (snd kv)) l ->
+  Forall (fun kv : key * dval => Pk (fst kv) /\ Pv (snd kv)) (odk_build l).
+Proof.
+  unfold odk_build. intros H.
+  assert (G : forall d, Forall (fun kv : key * dval => Pk (fst kv) /\ Pv (snd kv)) d ->
+              Forall (fun kv : key * dval => Pk (fst kv) /\ Pv (snd kv)) (fold_left (fun d kv => odk_insert (fst kv) (snd kv) d) l d)).
+  { induction H as [|x l [Hx1 Hx2] Hl IH]; intros d Hd; cbn [fold_left]; [exact Hd|].
+    apply IH. now apply Forall_odk_insert2. }
+  apply G. constructor.
+Qed.
+
+Section DvalKeys.
+  Variable units : list Z.
+  Definition Pkeys (t : terms) (d : dval) (t' : terms) : Prop := dkeys d = true /\ (wf_terms t = true -> wf_terms t' = true).
+  Definition rdk_ok (rd : terms -> Z -> stream -> res (dval * terms * stream)) : Prop :=
+    forall t os s d t' s', rd t os s = Ok (d, t', s') -> Pkeys t d t'.
+
+  Lemma read_items_keys rd : rdk_ok rd -> forall n t s items t' s',
+    read_items rd n t s = Ok (items, t', s') ->
+    Forall (fun kv : key * dval => nonempty_key (fst kv) = true /\ dkeys (snd kv) = true) items /\
+    (wf_terms t = true -> wf_terms t' = true).
+  Proof.
+    intros Hrd. induction n as [|n IH]; intros t s items t' s' H; cbn [read_items] in H.
+    - inversion H; subst. split; [constructor|auto].
+    - dres H as kt a1 E1. dres H as o a2 E2. dres H as vt a3 E3. dres H as rt a4 E4. inversion H; subst.
+      destruct kt as [k tk]. destruct vt as [v tv]. destruct rt as [r tr]. cbn [fst snd] in *.
+      destruct (read_key_props _ _ _ _ _ E1) as [Hk Ht1]. destruct (Hrd _ _ _ _ _ _ E3) as [Hv Ht2].
+      destruct (IH _ _ _ _ _ E4) as [Hr Ht3]. split; [constructor; auto|auto].
+  Qed.
+  Lemma read_list_items_keys rd : rdk_ok rd -> forall n t s items t' s',
+    read_list_items rd n t s = Ok (items, t', s') ->
+    forallb dkeys items = true /\ (wf_terms t = true -> wf_terms t' = true).
+  Proof.
+    intros Hrd. induction n as [|n IH]; intros t s items t' s' H; cbn [read_list_items] in H.
+    - inversion H; subst. auto.
+    - dres H as o a2 E2. dres H as vt a3 E3. dres H as rt a4 E4. inversion H; subst.
+      destruct vt as [v tv]. destruct rt as [r tr]. cbn [fst snd] in *.
+      destruct (Hrd _ _ _ _ _ _ E3) as [Hv Ht2]. destruct (IH _ _ _ _ _ E4) as [Hr Ht3].
+      cbn [forallb]. rewrite Hv, Hr. auto.
+  Qed.
+  Lemma items_keys (items : list (key * dval)) :
+    Forall (fun kv : key * dval => nonempty_key (fst kv) = true /\ dkeys (snd kv) = true) items ->
+    forallb (fun kv : key * dval => let (k, v) := kv in nonempty_key k && dkeys v) items = true.
+  Proof. induction 1 as [|[k v] l [H1 H2] Hl IH]; [reflexivity|]. cbn [forallb fst snd] in *. now rewrite H1, H2, IH. Qed.
+
+  Lemma read_dval_keys : forall fuel, rdk_ok (read_dval units fuel).
+  Proof.
+    induction fuel as [|f IH]; intros t os s d t' s' H; [discriminate|]. cbn [read_dval] in H.
+    set (body := fun (t : terms) (s : stream) =>
+        do (name, s1) <- r_unicode 1 s; do (ct, s2) <- read_key t s1; do (count, s3) <- read_u 4 s2;
+        do (r, s4) <- read_items (read_dval units f) (clampn count s3) (snd ct) s3;
+        Ok (name, fst ct, odk_build (fst r), snd r, s4)) in H.
+    assert (Hbody : forall t s name cid items t1 s1, body t s = Ok (name, cid, items, t1, s1) ->
+              nonempty_key cid = true /\
+              forallb (fun kv : key * dval => let (k, v) := kv in nonempty_key k && dkeys v) items = true /\
+              (wf_terms t = true -> wf_terms t1 = true)).
+    { intros t0 s0 name cid items t1 s1 Hb. unfold body in Hb.
+      dres Hb as nm u1 F1. dres Hb as ct u2 F2. dres Hb as count u3 F3. dres Hb as r u4 F4. inversion Hb; subst.
+      destruct ct as [c tc]. destruct r as [its tr]. cbn [fst snd] in *.
+      destruct (read_key_props _ _ _ _ _ F2) as [Hc Ht1]. destruct (read_items_keys _ IH _ _ _ _ _ _ F4) as [Hi Ht2].
+      split; [exact Hc|]. split; [|auto]. apply items_keys.
+      exact (odk_build_Forall2 (fun k => nonempty_key k = true) (fun v => dkeys v = true) _ Hi). }
+    destruct ((os =? OS_Objc) || (os =? OS_GlbO)) eqn:K1.
+    { dres H as b s1 Eb. destruct b as [[[name cid] items] t1]. inversion H; subst.
+      destruct (Hbody _ _ _ _ _ _ _ Eb) as (Hc & Hi & Ht). split; [cbn [dkeys]; now rewrite Hc, Hi|exact Ht]. }
+    destruct (os =? OS_ObAr) eqn:K2.
+    { dres H as c s0 Ec. dres H as b s1 Eb. destruct b as [[[name cid] items] t1]. inversion H; subst.
+      destruct (Hbody _ _ _ _ _ _ _ Eb) as (Hc & Hi & Ht). split; [cbn [dkeys]; now rewrite Hc, Hi|exact Ht]. }
+    destruct ((os =? OS_VlLs) || (os =? OS_obj)) eqn:K3.
+    { dres H as count s1 Ec. dres H as r s2 Er. inversion H; subst. destruct r as [its tr]. cbn [fst snd] in *.
+      destruct (read_list_items_keys _ IH _ _ _ _ _ _ Er) as [Hi Ht]. split; [exact Hi|exact Ht]. }
+    destruct (os =? OS_prop) eqn:K4.
+    { dres H as name s1 E1. dres H as c s2 E2. dres H as k s3 E3. inversion H; subst.
+      destruct c as [ck tc]. destruct k as [kk tk]. cbn [fst snd] in *.
+      destruct (read_key_props _ _ _ _ _ E2) as [H1 T1]. destruct (read_key_props _ _ _ _ _ E3) as [H2 T2].
+      split; [cbn [dkeys]; now rewrite H1, H2|auto]. }
+    destruct (os =? OS_UntF) eqn:K5.
+    { dres H as u s1 E1. dres H as v s2 E2. destruct (memz u units); [|discriminate]. inversion H; subst. split; auto. }
+    destruct (os =? OS_UnFl) eqn:K6.
+    { dres H as u s1 E1. dres H as n s2 E2. dres H as vs s3 E3. destruct (negb (len vs =? n)); [discriminate|].
+      destruct (memz u units); [|discriminate]. inversion H; subst. split; auto. }
+    destruct (os =? OS_doub) eqn:K7.
+    { dres H as v s1 E1. inversion H; subst. split; auto. }
+    destruct ((os =? OS_type) || (os =? OS_GlbC) || (os =? OS_Clss)) eqn:K8.
+    { dres H as name s1 E1. dres H as c s2 E2. inversion H; subst. destruct c as [ck tc]. cbn [fst snd] in *.
+      destruct (read_key_props _ _ _ _ _ E2) as [H1 T1]. split; [exact H1|exact T1]. }
+    destruct (os =? OS_TEXT) eqn:K9.
+    { dres H as u s1 E1. inversion H; subst. split; auto. }
+    destruct (os =? OS_Enmr) eqn:K10.
+    { dres H as name s1 E1. dres H as c s2 E2. dres H as ty s3 E3. dres H as e s4 E4. inversion H; subst.
+      destruct c as [ck tc]. destruct ty as [tk tt]. destruct e as [ek te]. cbn [fst snd] in *.
+      destruct (read_key_props _ _ _ _ _ E2) as [H1 T1]. destruct (read_key_props _ _ _ _ _ E3) as [H2 T2].
+      destruct (read_key_props _ _ _ _ _ E4) as [H3 T3]. split; [cbn [dkeys]; now rewrite H1, H2, H3|auto]. }
+    destruct (os =? OS_rele) eqn:K11.
+    { dres H as name s1 E1. dres H as c s2 E2. dres H as v s3 E3. inversion H; subst. destruct c as [ck tc]. cbn [fst snd] in *.
+      destruct (read_key_props _ _ _ _ _ E2) as [H1 T1]. split; [exact H1|exact T1]. }
+    destruct (os =? OS_bool) eqn:K12.
+    { dres H as v s1 E1. inversion H; subst. split; auto. }
+    destruct (os =? OS_comp) eqn:K13.
+    { dres H as v s1 E1. inversion H; subst. split; auto. }
+    destruct ((os =? OS_long) || (os =? OS_Idnt) || (os =? OS_indx)) eqn:K14.
+    { dres H as v s1 E1. inversion H; subst. split; auto. }
+    destruct (os =? OS_enum) eqn:K15.
+    { dres H as ty s1 E1. dres H as e s2 E2. inversion H; subst. destruct ty as [tk tt]. destruct e as [ek te]. cbn [fst snd] in *.
+      destruct (read_key_props _ _ _ _ _ E1) as [H1 T1]. destruct (read_key_props _ _ _ _ _ E2) as [H2 T2].
+      split; [cbn [dkeys]; now rewrite H1, H2|auto]. }
+    destruct ((os =? OS_tdta) || (os =? OS_alis) || (os =? OS_Pth)) eqn:K16.
+    { dres H as b s1 E1. inversion H; subst. split; auto. }
+    destruct (os =? OS_name) eqn:K17; [|discriminate].
+    { dres H as name s1 E1. dres H as c s2 E2. dres H as v s3 E3. inversion H; subst. destruct c as [ck tc]. cbn [fst snd] in *.
+      destruct (read_key_props _ _ _ _ _ E2) as [H1 T1]. split; [exact H1|exact T1]. }
+  Qed.
+End DvalKeys.
 
 Section DvalWf.
   Variable units : list Z.
@@ -717,3 +856,46 @@ Section LinkedWf.
     exact (linked_rt enc_s dec_s units t' pad l s n tail Ht Hwf Hw).
   Qed.
 End LinkedWf.
+
+(* ------------------------------------------------------------------ since /repo 708c13e the descriptor guards hold for every read:
+   the theorems with the single hypothesis that the term table the read starts from is well formed *)
+Theorem dval_resave_all units fuel t os b d t' r s n rest :
+  read_dval units fuel t os b = Ok (d, t', r) -> wf_terms t = true ->
+  write_dval t' d = Ok (s, n) -> read_dval units (S (length s)) t' os (s ++ rest) = Ok (d, t', rest).
+Proof.
+  intros Hr Ht Hw. destruct (read_dval_keys units _ _ _ _ _ _ _ Hr) as [Hk Ht'].
+  exact (dval_resave units fuel t os b d t' r s n rest Hr Hk (Ht' Ht) Hw).
+Qed.
+Lemma read_dblock_guard units two t s blk t' :
+  read_dblock units two t s = Ok (blk, t') -> wf_terms t = true -> dguard t' (dblock_val blk) = true.
+Proof.
+  unfold read_dblock, dguard. intros H Ht. destruct two.
+  - dres H as ver s1 E1. dres H as dv s2 E2. dres H as r s3 E3. destruct (dv =? 16); [|discriminate]. inversion H; subst.
+    destruct r as [d tr]. cbn [fst snd dblock_val] in *. destruct (read_dval_keys units _ _ _ _ _ _ _ E3) as [Hk Ht'].
+    now rewrite Hk, (Ht' Ht).
+  - dres H as ver s1 E1. dres H as r s3 E3. destruct (ver =? 16); [|discriminate]. inversion H; subst.
+    destruct r as [d tr]. cbn [fst snd dblock_val] in *. destruct (read_dval_keys units _ _ _ _ _ _ _ E3) as [Hk Ht'].
+    now rewrite Hk, (Ht' Ht).
+Qed.
+Theorem dblock_resave_all units two t b blk t' pad s n :
+  0 < pad -> read_dblock units two t b = Ok (blk, t') -> wf_terms t = true ->
+  write_dblock t' pad blk = Ok (s, n) -> read_dblock units two t' s = Ok (blk, t').
+Proof. intros Hp Hr Ht Hw. exact (dblock_resave units two t b blk t' pad s n Hp Hr (read_dblock_guard _ _ _ _ _ _ Hr Ht) Hw). Qed.
+Theorem color_lookup_resave_all units t b ver dv d t' pad s n :
+  read_color_lookup units t b = Ok (ver, dv, d, t') -> wf_terms t = true ->
+  write_color_lookup t' pad ver dv d = Ok (s, n) -> read_color_lookup units t' s = Ok (ver, dv, d, t').
+Proof.
+  intros Hr Ht Hw. apply (color_lookup_resave units t b ver dv d t' pad s n Hr); [|exact Hw].
+  unfold read_color_lookup in Hr. dres Hr as ver0 s1 E1. dres Hr as dv0 s2 E2. dres Hr as r s3 E3.
+  destruct (dv0 =? 16); [|discriminate]. inversion Hr; subst. destruct r as [d0 tr]. cbn [fst snd] in *.
+  destruct (read_dval_keys units _ _ _ _ _ _ _ E3) as [Hk Ht']. unfold dguard. now rewrite Hk, (Ht' Ht).
+Qed.
+Theorem vscg_resave_all units t b key version d t' pad s n :
+  read_vscg units t b = Ok (key, version, d, t') -> wf_terms t = true ->
+  write_vscg t' pad key version d = Ok (s, n) -> read_vscg units t' s = Ok (key, version, d, t').
+Proof.
+  intros Hr Ht Hw. apply (vscg_resave units t b key version d t' pad s n Hr); [|exact Hw].
+  unfold read_vscg in Hr. dres Hr as key0 s1 E1. dres Hr as ver0 s2 E2. dres Hr as r s3 E3.
+  inversion Hr; subst. destruct r as [d0 tr]. cbn [fst snd] in *.
+  destruct (read_dval_keys units _ _ _ _ _ _ _ E3) as [Hk Ht']. unfold dguard. now rewrite Hk, (Ht' Ht).
+Qed.
